@@ -985,6 +985,7 @@ class segment_if(x12_node):
                 comp_data = seg_data.get(ref_des)
                 subele_count = child_node.get_child_count()
                 if seg_data.ele_len(ref_des) > subele_count and child_node.usage != 'N':
+                    errh.add_ele(child_node)
                     err_str = 'Too many sub-elements in composite "%s" (%s)' % \
                         (child_node.name, child_node.refdes)
                     err_value = seg_data.get_value(ref_des)
@@ -1474,6 +1475,8 @@ class composite_if(x12_node):
         valid = True
         if (comp_data is None or comp_data.is_empty()) and self.usage in ('N', 'S'):
             return True
+        # composite level errors belong to the composite's own position
+        errh.add_ele(self)
 
         if self.usage == 'R':
             good_flag = False
